@@ -131,12 +131,12 @@ func (v *resView) project(prop string) string {
 		if v.noIssues() {
 			return "ok " + v.dest.String()
 		}
-		return v.issueKeys(false, "code,path,dtype,msg", nil)
+		return v.issueKeys(false, "code,path,dtype,params,msg", nil)
 	case "C09m":
 		if v.noIssues() {
 			return "ok " + v.dest.String()
 		}
-		return v.issueKeysSorted("code,path,dtype,msg")
+		return v.issueKeysSorted("code,path,dtype,params,msg")
 	case "C10":
 		return v.issueKeys(true, "path", nil)
 	case "C11":
